@@ -85,6 +85,7 @@ fn stress_strategy(tier: Tier) -> BoxedStrategy<CbcCase> {
                 wait_huge: 0,
                 classifier_first: false,
                 listeners: false,
+                via_fallback: false,
             },
             fallback,
             clones: 1,
@@ -252,6 +253,7 @@ fn small_config() -> BoxedStrategy<CbConfig> {
                 wait_huge,
                 classifier_first: false,
                 listeners,
+                via_fallback: false,
             },
         )
         .boxed()
@@ -356,6 +358,7 @@ fn case_strategy(tier: Tier) -> BoxedStrategy<CbcCase> {
                 wait_huge: 0,
                 classifier_first: false,
                 listeners: false,
+                via_fallback: false,
             },
             fallback,
             clones: 3,
